@@ -229,6 +229,14 @@ pub fn parse_line(line: &str) -> LineInfo {
             continue;
         }
 
+        if semi_ok && sep == "`" && c != ' ' && c != '|' && c != '\'' && c != '"' && c != '`' {
+            // text right behind a closing backquote belongs to the word,
+            // not to the command: `pwd`/x
+            token = format!("`{}`", token);
+            sep = String::new();
+            semi_ok = false;
+        }
+
         if has_backslash && sep.is_empty()
                 && (c == '>' || c == '<'
                     || (!met_parenthesis
